@@ -1,0 +1,18 @@
+//go:build verif
+
+package kubernetes
+
+// Contracts checked by /verif (govc). Comment-only: no executable code. StatefulSet numbering (C10).
+
+//@ func NewStatefulSetMembership
+//@ props C10 C15
+//@ requires config != nil && logger.Log != nil
+//@ let ordinal = dret("kubernetes.getPodOrdinalFromHostname", 0, 0)
+//@ check.ordinal_plus_one[C10] ordinal < 9223372036854775807 ==> result != nil && typeis(result, "*statefulSetMembership") && as(result, "*statefulSetMembership").info != nil && as(result, "*statefulSetMembership").info.MemberNumber == ordinal + 1 && as(result, "*statefulSetMembership").info.TotalMembers == config.Dcp.Group.Membership.TotalMembers && ordinal + 1 <= config.Dcp.Group.Membership.TotalMembers
+//@ check.hostname_ok[C15] dret("kubernetes.getPodOrdinalFromHostname", 0, 1) == nil
+//@ modifies calls("kubernetes.getPodOrdinalFromHostname")
+
+//@ func getPodOrdinalFromHostname
+//@ props C10
+//@ trusted
+//@ modifies nothing
